@@ -139,4 +139,55 @@ theorem gen_apply_diff_spec (state : List St) (diff : Path) (expand : Bool) :
   | nil => simp [applyDiff]
   | cons a t => simp
 
+/-! ### tpStateLevel -/
+mutual
+theorem gen_entry_level (two : St → Bool) (h : ∀ s : St, s.kids ≠ [] → two s = true) :
+    ∀ (s : St) (level : Nat), entryLevelGen two s level = max level (depthSt s)
+  | .node sid kids, level => by
+    simp only [entryLevelGen, depthSt]
+    cases ht : two (St.node sid kids) with
+    | true =>
+      simp only [if_true]
+      rw [gen_state_level two h kids 0]
+      simp
+    | false =>
+      by_cases hk : kids = []
+      · subst hk; simp [depthList]
+      · have := h (St.node sid kids) (by simpa [St.kids] using hk)
+        rw [this] at ht
+        cases ht
+theorem gen_state_level (two : St → Bool) (h : ∀ s : St, s.kids ≠ [] → two s = true) :
+    ∀ (st : List St) (level : Nat), stateLevelGen two st level = max level (depthList st)
+  | [], level => by simp [stateLevelGen, depthList]
+  | s :: ss, level => by
+    simp only [stateLevelGen, depthList]
+    rw [gen_entry_level two h s level, gen_state_level two h ss _]
+    omega
+end
+
+/-! ### tpValuesIds -/
+mutual
+theorem gen_values_ids : ∀ t : T, valuesIdsGen t = allIdsList t.kids
+  | .node id items => by
+    simp only [valuesIdsGen, T.kids]
+    rw [gen_values_ids_loop items []]
+    simp
+theorem gen_values_ids_loop : ∀ (items : List T) (r : List St), valuesIdsLoopGen items r = r ++ allIdsList items
+  | [], r => by simp [valuesIdsLoopGen, allIdsList]
+  | .node id kids :: items, r => by
+    simp only [valuesIdsLoopGen, allIdsList, allIds, T.kids, T.id]
+    by_cases hk : kids.isEmpty = true
+    · simp only [hk, Bool.not_true, Bool.false_eq_true, if_false, if_true]
+      rw [gen_values_ids_loop items r]
+      simp
+    · have hk' : kids.isEmpty = false := by simpa using hk
+      simp only [hk', Bool.not_false, if_true, Bool.false_eq_true, if_false]
+      have e2 : valuesIdsGen (.node id kids) = allIdsList kids := gen_values_ids (.node id kids)
+      rw [gen_values_ids_loop items _, e2]
+      have key : ∀ e : List St, (if (!e.isEmpty) = true then St.node id e else St.node id []) = St.node id e := by
+        intro e; cases e <;> simp
+      rw [key]
+      simp
+end
+
 end DTML.Lemmas.TreeGen
